@@ -1,3 +1,4 @@
+mod cli;
 mod gen;
 mod glue;
 mod oracle;
